@@ -326,6 +326,8 @@ def _coord_from_geo_rule(ck, P):
 
 
 def rules(ck, P):
+    from . import boxalg
+    boxalg.transform_rule(ck, P, "R-BOX-D4")
     _from_geo_rule(ck, P)
     _coord_from_geo_rule(ck, P)
     comp.levels_rule(ck, P, "R-SELECT", ("set_zoom_min", "set_zoom_max", "intersect_geo_bbox", "intersect", "add_border"))
